@@ -278,13 +278,30 @@ std::string framesFor(const M& m, const FragSpec& fs, bool framerIsClient)
 	if (fs.ping == 1)
 		ping("p-before");
 	int nf = std::max(1, std::min(4, fs.nframes));
-	if ((size_t)nf > m.data.size())
+	// one frame of a fragmented message may be empty (RFC 6455 5.4 allows it; typical of streaming senders whose
+	// last write was a flush): first, middle or final
+	Prng r2(mix64(fs.seed, 99));
+	int emptyAt = nf >= 2 && r2.below(4) == 0 ? (int)r2.below((uint32_t)nf) : -1;
+	int nonEmpty = emptyAt >= 0 ? nf - 1 : nf;
+	if ((size_t)nonEmpty > m.data.size())
+	{
 		nf = (int)m.data.size();
+		emptyAt = -1;
+		nonEmpty = nf;
+	}
 	size_t pos = 0;
+	int left = nonEmpty; // non-empty frames still to be produced
 	for (int i = 0; i < nf; i++)
 	{
 		size_t remaining = m.data.size() - pos;
-		size_t n = i == nf - 1 ? remaining : 1 + r.below((uint32_t)(remaining - (size_t)(nf - 1 - i)));
+		size_t n;
+		if (i == emptyAt)
+			n = 0;
+		else
+		{
+			left--;
+			n = left == 0 ? remaining : 1 + r.below((uint32_t)(remaining - (size_t)left));
+		}
 		ref::Frame f;
 		f.fin = i == nf - 1;
 		f.opcode = i == 0 ? (m.text ? 1 : 2) : 0;
